@@ -69,10 +69,10 @@ func (t *Thread) release() []int {
 
 // PointRec records one scheduling decision.
 type PointRec struct {
-	Enabled []int // thread ids in canonical order: the running thread first if still enabled, then ascending
-	RunningEnabled bool // Enabled[0] is the thread that ran last and could continue
-	Chosen  int   // index into Enabled
-	Op      string
+	Enabled        []int // thread ids in canonical order: the running thread first if still enabled, then ascending
+	RunningEnabled bool  // Enabled[0] is the thread that ran last and could continue
+	Chosen         int   // index into Enabled
+	Op             string
 }
 
 // Race describes a happens-before race on an annotated location.
@@ -114,8 +114,8 @@ type Sched struct {
 	// Horizon bounds the number of steps (livelock guard).
 	Horizon int
 
-	Deadlock bool
-	Livelock bool
+	Deadlock  bool
+	Livelock  bool
 	BadChoice bool
 }
 
